@@ -94,6 +94,11 @@ Theorem C12_model_tree_shape : forall d r fuel ng pv u, shape_ok u (tree_ng d r 
 Proof. exact tree_ng_shape. Qed.
 Print Assumptions C12_model_tree_shape.
 
+Theorem C12_model_top_map : forall d r fuel ng pv over mode cont t,
+  tree_map_top d r fuel ng pv over mode cont = Some t -> wf_b (run_failed t) (lin_root t) = true.
+Proof. exact tree_map_top_wf. Qed.
+Print Assumptions C12_model_top_map.
+
 Theorem C12_model_nested_run : forall d r fuel ng pv,
   wf_b (run_failed (tree_ng d r fuel ng pv)) (lin_root (tree_ng d r fuel ng pv)) = true.
 Proof. exact tree_ng_wf. Qed.
